@@ -341,4 +341,9 @@ def run(ck):
     # energy, current and time exactly (unit rules of C07)
     from .c07 import rule_units
     ck.attempt(rule_units, rid="C08.R10")
+    # "the largest pilot that is feasible": the oracle the searches ask applies the same default tolerances as the network that judges the
+    # result (sibling-defaults rule of C06; reports under its C06 ids)
+    from .c06 import rule_defaults
+    ck.attempt(rule_defaults)
+
 
